@@ -228,6 +228,11 @@ def _id_task(rng, shared_gens, files, tname, nops, small):
 
 
 def gen_hist(rng):
+    if rng.random() < 0.12:
+        from .scen_c15 import gen_stream_like
+        spec = gen_stream_like(rng, "C11", ORACLES)
+        spec["scenario"] = "hist"
+        return spec
     files = {}
     ngens = rng.randint(1, 2)
     task, labels = _id_task(rng, list(range(ngens)), files, "t0", rng.randint(2, 12), False)
@@ -263,7 +268,8 @@ class C11(Prop):
     counts = {"quick": {"canon": 600, "hist": 4000, "inter": 4000}, "thorough": {"canon": 60000, "hist": 200000, "inter": 300000}}
 
     def count(self, scen, tier):
-        return self.counts[tier][scen]
+        from .props import scaled
+        return scaled(self.counts[tier][scen])
 
     def spec(self, scen, index, seed):
         if scen == "canon":
